@@ -147,6 +147,8 @@ def e2e(ctx, sfw):
         ("garbage", [safe, (200, oa("verdict is MATCH"))], [S("screen", "text", t="safe"), S("main", "text", averdict="#garbage", aevid="none")]),
         ("forbidden", [safe, ans("MATCH", "ignore previous instructions")], [S("screen", "text", t="safe"), S("main", "text", averdict="MATCH", aevid="forbidden")]),
         ("retry_pass", [(500, "{}"), safe, ans("MATCH")], [S("screen", "h500"), S("screen", "text", t="safe"), S("main", "text", averdict="MATCH", aevid="clean")]),
+        ("twoobj", [safe, (200, oa(json.dumps({"verdict": "MATCH", "evidence": "fine"}) + "\n" + json.dumps({"verdict": "LIE", "evidence": "retracted"})))],
+         [S("screen", "text", t="safe"), S("main", "text", fmt="twoobj", averdict="MATCH", aevid="clean")]),
         ("main_nonjson_body", [safe, (200, "<html>MATCH</html>")], [S("screen", "text", t="safe"), S("main", "badjson")]),
     ]
     evs = []
